@@ -1162,6 +1162,28 @@ class Ex:
         seq = self.eval(gen.iter)
         if isinstance(seq, VBox) and seq.kind == "list":
             seq = seq.val
+        # a concrete iterable (module-level constant list, tuple display): evaluate the element expression per item
+        items = None
+        if isinstance(seq, VPy) and isinstance(seq.obj, (list, tuple)):
+            items = [lift(x) for x in seq.obj]
+        elif isinstance(seq, VTuple):
+            items = list(seq.items)
+        elif isinstance(seq, VSeq) and seq.kind == "list" and isinstance(seq.pyval, list):
+            items = [lift(x) for x in seq.pyval]
+        if items is not None:
+            out = []
+            fr = self.frame()
+            saved = fr.vars.get(gen.target.id)
+            try:
+                for x in items:
+                    fr.vars[gen.target.id] = x
+                    out.append(self.eval(e.elt))
+            finally:
+                if saved is None:
+                    fr.vars.pop(gen.target.id, None)
+                else:
+                    fr.vars[gen.target.id] = saved
+            return self.world.speclib.make_list(self, out)
         if not isinstance(seq, VSeq):
             raise Unsupported("list comprehension over %r" % (seq,))
         fr = self.frame()
@@ -1480,7 +1502,7 @@ class Ex:
         kind, n, ci = hit
         if kind == "method":
             decs = ci.decorators.get(name, [])
-            f = VFunc("user", "%s.%s" % (ci.name, name), node=n, cls=ci.name, module=mod)
+            f = VFunc("user", "%s.%s" % (ci.name, name), node=n, cls=ci.name, module=ci.module)
             if "staticmethod" in decs:
                 return f
             if "classmethod" in decs:
